@@ -163,6 +163,49 @@ theorem sequence_only_on_first_forward (s s' : St) (id : Int) (h : step s (.seq 
   rename_i h1 h2 h3 h4
   exact ⟨by simpa using h1, by simpa using h2, by simpa using h3, by simpa using h4⟩
 
+open Model.Producer in
+/-- **R1** — a produce set never carries an epoch older than the stamp of one of its messages
+    (accepted `sent` events only; the trace validation replays every batch the real producer hands to a broker) -/
+theorem batch_epoch_not_older_than_message (s s' : St) (id idx e f me mq : Int) (hid : 0 < id)
+    (hc : s.curStamp = some (e, f)) (hm : lookup3 s.msgStamp id = some (me, mq))
+    (h : step s (.sent id idx) = .ok s') : me ≤ e := by
+  simp only [step, hc, hm] at h
+  have hn : ¬ (id ≤ 0) := by omega
+  simp only [hn, ↓reduceIte] at h
+  split at h
+  · cases h
+  · rename_i hlt; omega
+
+open Model.Producer in
+/-- **R2** — a whole-batch resend (retryBatch) goes out under exactly the (epoch, sequence) of its previous send:
+    "a resent batch carries the identical sequence range, epoch and records" for the retryBatch path -/
+theorem retrybatch_resend_identical (s s' : St) (id idx e f me mq pe pq : Int) (hid : 0 < id)
+    (hc : s.curStamp = some (e, f)) (hm : lookup3 s.msgStamp id = some (me, mq))
+    (hp : lookup3 s.lastSent id = some (pe, pq)) (hv : id ∈ s.viaBatch)
+    (h : step s (.sent id idx) = .ok s') : (pe, pq) = (e, f + idx) := by
+  simp only [step, hc, hm, hp] at h
+  have hn : ¬ (id ≤ 0) := by omega
+  simp only [hn, ↓reduceIte] at h
+  split at h
+  · cases h
+  · split at h
+    · cases h
+    · rename_i hne
+      by_cases heq : (pe, pq) = (e, f + idx)
+      · exact heq
+      · exact absurd ⟨hv, heq⟩ hne
+
+open Model.Producer in
+/-- an idempotent batch never carries a message that was not given a sequence number -/
+theorem sent_message_was_stamped (s s' : St) (id idx e f : Int) (hid : 0 < id)
+    (hc : s.curStamp = some (e, f)) (h : step s (.sent id idx) = .ok s') : (lookup3 s.msgStamp id).isSome := by
+  simp only [step, hc] at h
+  have hn : ¬ (id ≤ 0) := by omega
+  simp only [hn, ↓reduceIte] at h
+  cases hl : lookup3 s.msgStamp id with
+  | none => simp [hl] at h
+  | some v => rfl
+
 /-! non-vacuity: a lost acknowledgement, the resend is de-duplicated, the log holds each message once -/
 example :
     let s := arriveAll {} [(0, 0, [1, 2]), (0, 2, [3]), (0, 2, [3]), (0, 3, [4])]
